@@ -1,9 +1,15 @@
 /-
   C02 — cut commits to its clause and ends the call.
-  Theorems about the engine model (the reference machine's `!` rule is stated in Spec/Machine.lean
-  and compared with the engine by the correspondence suite on every run).
+  Theorems about the engine model (all programs), and — for knowledge bases whose rule bodies are flat (empty, one
+  call / built-in / cut, or a conjunction of those) — the REFINEMENT of the engine model to the reference machine
+  with cut of Spec/CutMachine.lean (`C02_flat`, `C02_flat_exact`), whose cut rule is proved to do what the property
+  says (`machine_cut`, `machine_commit`, `machine_barriers_wf`).  For bodies with nested groups, disjunctions or
+  negation the machine comparison of the correspondence suite decides (Spec/Machine.lean, executable).
 -/
 import SuironVerif.Lemmas.Exhausted
+import SuironVerif.Lemmas.EngineRefineCut
+import SuironVerif.Lemmas.CutMachineDet
+import SuironVerif.Lemmas.CutMachineProps
 namespace Suiron.C02
 
 /-- executing `!` succeeds once with the bindings unchanged, marks the cut's own node and raises
@@ -210,6 +216,55 @@ theorem cut_yields_at_most_this_answer (fo : FloatOps) (kb : KB) (f f' : Nat) (n
     next fo kb (f'+1) st.node g' = .ok ⟨none, st.node, false, g'⟩ :=
   marked_node_blocks fo kb f' st.node g' (cut_marks fo kb f n g st h hc)
 
+/-! ## against the reference machine with cut (flat bodies) -/
+
+/-- REFINEMENT: for every knowledge base whose stored rules have flat bodies, every query, every number of requests
+    and every fuel, the answers the engine gives request after request (and the text written up to each) are the
+    observations of the reference machine with cut started on the query goal. -/
+theorem C02_flat (fo : FloatOps) (kb : KB)
+    (hkb : ∀ key rs, kb.get key = some rs → ∀ r ∈ rs, Spec.flatBodyB r.body = true)
+    (q : Term) (σ0 : Subst) (g0 g1 : G) (node : Node)
+    (hmk : mkNode fo.showF kb (.call q) σ0 g0 = .ok (node, g1)) (hg : Spec.GOK g0) (fs : List Nat) :
+    Spec.CRun fo kb ⟨[.goals [.g (.call q) 0] σ0], g0.counter, g0.out⟩ (Spec.askOut fo kb fs node g1) :=
+  Spec.query_refines_cut_machine fo kb (Spec.flatKB_of_rules kb hkb) q σ0 g0 g1 node hmk hg fs
+
+/-- EXACTLY: the machine with cut is deterministic, so whatever it can be observed to show agrees position by
+    position with what the engine's requests return. -/
+theorem C02_flat_exact (fo : FloatOps) (kb : KB)
+    (hkb : ∀ key rs, kb.get key = some rs → ∀ r ∈ rs, Spec.flatBodyB r.body = true)
+    (q : Term) (σ0 : Subst) (g0 g1 : G) (node : Node)
+    (hmk : mkNode fo.showF kb (.call q) σ0 g0 = .ok (node, g1)) (hg : Spec.GOK g0) (fs : List Nat)
+    (tr' : List (Option Subst × List String)) (hm : Spec.CRun fo kb ⟨[.goals [.g (.call q) 0] σ0], g0.counter, g0.out⟩ tr')
+    (i : Nat) (x y : Option Subst × List String) (hx : (Spec.askOut fo kb fs node g1)[i]? = some x) (hy : tr'[i]? = some y) : x = y :=
+  (C02_flat fo kb hkb q σ0 g0 g1 node hmk hg fs).det hm i x y hx hy
+
+/-- in every configuration the machine reaches from a query, the barriers are well-formed: a cut finds its barrier
+    inside the stack, so exactly the frames that were there when its clause was chosen survive it. -/
+theorem machine_barriers_wf (fo : FloatOps) (kb : KB) (q : Goal) (σ0 : Subst) (c : Nat) (o : List String) (b : Spec.CConf)
+    (h : Spec.CSteps fo kb ⟨[.goals [.g q 0] σ0], c, o⟩ b) : Spec.CWF b.stack :=
+  h.wf (Spec.CWF.init q σ0)
+
+/-- THE CUT on the reference machine: a clause of a call is chosen on top of the stack `S0`; while the machine works
+    above `S0` a cut of that clause's body comes to run.  The step it takes — the only one there is (`CStep.det`) —
+    leaves exactly `S0` under the frame that goes on with the body: no later clause of the call, no alternative of a
+    goal to the left of the cut, and `S0` (the caller, its siblings, everything older) untouched. -/
+theorem machine_cut {fo : FloatOps} {kb : KB} {t : Term} {σ : Subst} {idx n : Nat} {k : List Spec.CG} {S0 : List Spec.CFrame}
+    {c : Nat} {o : List String} {mid : Spec.CConf} {args : Option TermList} {k' : List Spec.CG} {σ' : Subst} {S : List Spec.CFrame}
+    {c' : Nat} {o' : List String}
+    (h1 : Spec.CStep fo kb ⟨.try t σ idx n k :: S0, c, o⟩ mid) (hmid : S0.length < mid.stack.length)
+    (h2 : Spec.CStepsAbove fo kb S0.length mid ⟨.goals (.g (.bip "!" args) S0.length :: k') σ' :: S, c', o'⟩) (b : Spec.CConf) :
+    Spec.CStep fo kb ⟨.goals (.g (.bip "!" args) S0.length :: k') σ' :: S, c', o'⟩ b ↔ b = ⟨.goals (Spec.markCut k') σ' :: S0, c', o'⟩ :=
+  ⟨fun hb => hb.det (Spec.call_then_cut h1 hmid h2), fun e => e ▸ Spec.call_then_cut h1 hmid h2⟩
+
+/-- and at the end of a body in which a cut ran the same once more: whatever the goals after the cut left behind is
+    dropped — the call yields no answer beyond the one being derived. -/
+theorem machine_commit {fo : FloatOps} {kb : KB} {t : Term} {σ : Subst} {idx n : Nat} {k : List Spec.CG} {S0 : List Spec.CFrame}
+    {c : Nat} {o : List String} {mid : Spec.CConf} {k' : List Spec.CG} {σ' : Subst} {S : List Spec.CFrame} {c' : Nat} {o' : List String}
+    (h1 : Spec.CStep fo kb ⟨.try t σ idx n k :: S0, c, o⟩ mid) (hmid : S0.length < mid.stack.length)
+    (h2 : Spec.CStepsAbove fo kb S0.length mid ⟨.goals (.endB S0.length true :: k') σ' :: S, c', o'⟩) (b : Spec.CConf) :
+    Spec.CStep fo kb ⟨.goals (.endB S0.length true :: k') σ' :: S, c', o'⟩ b ↔ b = ⟨.goals k' σ' :: S0, c', o'⟩ :=
+  ⟨fun hb => hb.det (Spec.call_then_commit h1 hmid h2), fun e => e ▸ Spec.call_then_commit h1 hmid h2⟩
+
 /-! Non-vacuity: `t($X) :- g($X), !, fail.  t(other).  g(1). g(2).` has no answer
     (the pinned tree answered `t(other)`). -/
 def fo0 : FloatOps := ⟨fun a _ => a, fun a _ => a, fun a _ => a, fun a _ => a, fun _ => 0, fun _ => ""⟩
@@ -220,5 +275,24 @@ def kb0 : KB :=
    ("g/1", [⟨c1 "g" (.int 1), .nil⟩, ⟨c1 "g" (.int 2), .nil⟩])]
 example : (match next fo0 kb0 40 (.call (c1 "t" (.var 1 "$X")) [] false none 0 2) { G.init with counter := 1 } with
            | .ok st => some st.sol | _ => none) = some none := by decide
+
+/-- the knowledge base of the example is in the fragment of `C02_flat` -/
+example : Spec.flatKBB kb0 = true := by decide
+
+/-- the premises of `machine_cut` are met on that knowledge base: clause 1 of `t/1` is chosen on the empty stack, `g($X)`
+    is called and answers from its first clause, and the cut comes to run with two frames under it (the second clause
+    of `t/1`, the second clause of `g/1`) — which `machine_cut` says are both gone after the step. -/
+example : ∃ mid k' σ' S c' o', Spec.CStep fo0 kb0 ⟨.try (c1 "t" (.var 1 "$X")) [] 0 2 [] :: [], 1, []⟩ mid ∧
+    ([] : List Spec.CFrame).length < mid.stack.length ∧
+    Spec.CStepsAbove fo0 kb0 ([] : List Spec.CFrame).length mid
+      ⟨.goals (.g (.bip "!" none) ([] : List Spec.CFrame).length :: k') σ' :: S, c', o'⟩ ∧ S.length = 2 := by
+  have h1 : Spec.CStep fo0 kb0 ⟨.try (c1 "t" (.var 1 "$X")) [] 0 2 [] :: [], 1, []⟩ _ :=
+    Spec.CStep.clauseOk (key := "t/1") (f := 20) (by decide) (by rfl) (by rfl)
+  refine ⟨_, ?k, ?s, ?S, ?c, ?o, h1, by decide, ?h2, ?h3⟩
+  case h2 =>
+    refine Spec.CStepsAbove.step (Spec.CStep.call (key := "g/1") (by decide)) (by decide) ?_
+    refine Spec.CStepsAbove.step (Spec.CStep.clauseOk (key := "g/1") (f := 20) (by decide) (by rfl) (by rfl)) (by decide) ?_
+    exact Spec.CStepsAbove.refl
+  case h3 => decide
 
 end Suiron.C02
